@@ -646,6 +646,23 @@ static void observe(World& w, std::vector<Finding>& f, const std::string& ctx)
                                                                                           (w.ref[i] ? std::to_string(*w.ref[i]) : "empty") + " " + ctx });
         else if (engaged && PT::val(**w.slot[i]) != *w.ref[i])
             f.push_back({ "optional-holds-wrong-value", "slot " + std::to_string(i) + " holds " + std::to_string(PT::val(**w.slot[i])) + " expected " + std::to_string(*w.ref[i]) + " " + ctx });
+        // reading is probed after every transition (not only as an operation of its own): an optional that is empty by the
+        // reference must raise whatever its history was - emptied ones included
+        if (!w.ref[i].has_value())
+        {
+            bool threw = false;
+            int got = -1;
+            try
+            {
+                got = PT::val(**w.slot[i]);
+            }
+            catch (std::exception&)
+            {
+                threw = true;
+            }
+            if (!threw)
+                f.push_back({ "reading-empty-optional-does-not-raise", "slot " + std::to_string(i) + " is empty but reading it gave " + std::to_string(got) + " " + ctx });
+        }
     }
     // deep copies: two engaged optionals never share their payload
     for (int i = 0; i < N; i++)
